@@ -118,6 +118,7 @@ def plan_run(run_seed, prop):
     if plan_pipeline_hint:
         plan["pipeline"] = plan_pipeline_hint
     plan["shared_backend"] = tp.chance(0.25)
+    plan["gateset_stored"] = tp.chance(0.4)
     plan["header_first"] = tp.chance(0.15)
     plan["sibling"] = tp.chance(0.8)
     plan["inject_shifted"] = tp.sample(sorted(k for k in GS.SIGS if GS.has_unitary(k) and "f" in GS.SIGS[k]), tp.randint(1, 3)) if (plan["pipeline"] == "autoload" and tp.chance(0.6)) else None
@@ -157,6 +158,7 @@ def permute_branches(prog, tape):
 
 
 _SHARED_BACKEND = []
+_KEPT = []  # results of the first runs of this process, read again after every later run
 
 
 def shared_backend():
@@ -290,7 +292,38 @@ def rebuild_with_keyword_calls(c, seed):
     return n
 
 
+def _unreadable(viol, tag, e):
+    """Reading a result the library returned raised: that is a verdict about the result,
+    not a failure of the harness."""
+    import traceback
+
+    tb = traceback.extract_tb(e.__traceback__)
+    inner = [f for f in tb if f.filename.startswith(seams.REPO_SRC)]
+    where = ("%s@%s" % (inner[-1].name, os.path.basename(inner[-1].filename))) if inner else "reading the result"
+    msg = "%s: reading the result raised %s: %s" % (tag, type(e).__name__, e)
+    for prop in ("C03", "C08", "C15"):
+        viol.add(prop, "result_readable", type(e).__name__, where, msg)
+
+
 def check_result(viol, tag, res, M, R, sampler, mode):
+    try:
+        _check_result(viol, tag, res, M, R, sampler, mode)
+    except (seams.StepBudgetExceeded, seams.SimInterrupt, refmachine.RefRace):
+        raise
+    except Exception as e:
+        _unreadable(viol, tag, e)
+
+
+def check_views(viol, tag, res, n, simulated, single_execution=True):
+    try:
+        _check_views(viol, tag, res, n, simulated, single_execution)
+    except (seams.StepBudgetExceeded, seams.SimInterrupt):
+        raise
+    except Exception as e:
+        _unreadable(viol, tag, e)
+
+
+def _check_result(viol, tag, res, M, R, sampler, mode):
     """Oracles of C03 / C08 / C15 on one emulation result."""
     n = R.n
     visits = M.visits
@@ -359,7 +392,7 @@ def check_result(viol, tag, res, M, R, sampler, mode):
     check_views(viol, tag, res, n, simulated=True)
 
 
-def check_views(viol, tag, res, n, simulated, single_execution=True):
+def _check_views(viol, tag, res, n, simulated, single_execution=True):
     """C15: normalised, mutually consistent little-endian views."""
     if single_execution and res.readouts is not None:
         # the recorded readouts of a subcircuit are the ones attributed to it
@@ -372,6 +405,11 @@ def check_views(viol, tag, res, n, simulated, single_execution=True):
             if rf.shape != want.shape or np.abs(rf - want).max() > 0:
                 viol.add("C15", "relative_frequency_counts_attributed", "mismatch", tag, "subcircuit %d" % i)
                 break
+    if single_execution and res.readouts is not None:
+        # every recorded readout is counted once: by the subcircuit it is attributed to
+        total = sum(float(np.sum(np.asarray(sc.relative_frequency_by_int))) for sc in res.subcircuits)
+        if total != len(res.readouts):
+            viol.add("C15", "relative_frequency_total", "mismatch", tag, "the tallies of all subcircuits add up to %r, %d readouts were recorded" % (total, len(res.readouts)))
     keys = [format(k, "b").zfill(n)[::-1] for k in range(2**n)]
     for i, sc in enumerate(res.subcircuits):
         views = [("relative_frequency", sc.relative_frequency_by_int, sc.relative_frequency_by_str)]
@@ -445,7 +483,7 @@ def execute(plan):
     R = progast.resolve(prog, ov, executable=True)
     for f in R.features:
         probe("feat:" + f)
-    if plan["pipeline"] == "expand_let_map" and R.features & {"register_macro_arg", "param_indexing"}:
+    if plan["pipeline"] == "expand_let_map" and R.features & {"register_macro_arg", "param_indexing", "param_hides_register"}:
         # fill_in_map is not applicable (JaqalError) while a macro is called with a
         # register/alias argument or a definition indexes with/into a parameter; use the
         # order that expands macros first
@@ -464,7 +502,8 @@ def execute(plan):
         if any(v == 0 for v in ov.values()):
             probe("let_overridden_to_0")
 
-    G = GS.build_gateset(style=plan.get("gateset_style", "direct"))
+    GS.restore_stored()
+    G = GS.build_gateset(style=plan.get("gateset_style", "direct"), stored=bool(plan.get("gateset_stored")))
     clock = seams.StepClock()
     budget = budget_for(M, R, prog)
     scratch = modname = None
@@ -923,6 +962,42 @@ def execute(plan):
         # structural part: expand_subcircuits(A) vs B
         check_c09_structure(viol, plan, texts, G, clock, budget, probe)
 
+    # --- the matrices a gate definition hands out as stored arrays are the user's: no
+    # emulation may write into them (what a later emulation multiplies would change)
+    changed_ = GS.stored_changed()
+    if changed_:
+        viol.add("C03", "gate_matrices_unchanged", "mismatch", ",".join(changed_), "the stored matrix returned by the definition of %s was modified in place" % ", ".join(changed_))
+        GS.restore_stored()
+    elif plan.get("gateset_stored"):
+        probe("gate_definitions_return_stored_arrays")
+
+    # --- a result returned earlier in this process keeps describing what it described then,
+    # whatever has been processed since (at most two results are kept per process)
+    def views_of(res_):
+        out = []
+        for sc in res_.subcircuits:
+            out.append((sc.index, [float(x) for x in sc.relative_frequency_by_int], [int(r.as_int) for r in sc.readouts], [round(float(x), 12) for x in sc.simulated_probability_by_int]))
+        out.append([(int(r.as_int), r.subcircuit.index) for r in res_.readouts])
+        return out
+
+    for kept in _KEPT:
+        try:
+            now = views_of(kept["res"])
+        except Exception as e_:  # noqa
+            now = "reading raised %s" % type(e_).__name__
+        if now != kept["views"]:
+            for prop_ in ("C08", "C15"):
+                viol.add(prop_, "earlier_result_unchanged_by_later_runs", "mismatch", "", "a result returned %d runs ago reads differently now" % kept["age"])
+            kept["views"] = now
+        kept["age"] += 1
+    if _KEPT:
+        probe("earlier_result_read_again")
+    if okA and len(_KEPT) < 2:
+        try:
+            _KEPT.append({"res": results["A"]["outcome"]["value"], "views": views_of(results["A"]["outcome"]["value"]), "age": 1})
+        except Exception:
+            pass
+
     GS.REF_SHIFT = {}
     if scratch:
         import shutil, sys
@@ -956,6 +1031,46 @@ def _loop_counts(node, only_pm):
         if not only_pm or refmachine.contains_pm(node[2]):
             yield node[1]
         yield from _loop_counts(node[2], only_pm)
+
+
+def _shape(s):
+    """Exact nesting of a library statement, read attribute by attribute (no library
+    constructor is involved in computing it)."""
+    from jaqalpaq.core.block import BlockStatement, LoopStatement
+    from jaqalpaq.core.gate import GateStatement
+
+    def val(v):
+        return str(getattr(v, "name", None) or (repr(v) if not hasattr(v, "alias_from") else getattr(v, "name", "?")))
+
+    if isinstance(s, LoopStatement):
+        return ("loop", val(s.iterations), _shape(s.statements))
+    if isinstance(s, BlockStatement):
+        return ("block", bool(s.parallel), bool(s.subcircuit), None if s.iterations is None else val(s.iterations), tuple(_shape(x) for x in s.statements))
+    if isinstance(s, GateStatement):
+        return ("gate", s.name, tuple(val(v) for v in s.parameters.values()))
+    return ("other", type(s).__name__)
+
+
+def _expanded_shape(t, pname, mname):
+    """What C09 promises for a shape: each subcircuit block becomes a sequential block that
+    begins with the prepare gate and ends with the measure gate; everything else as it is."""
+    if t[0] == "loop":
+        return ("loop", t[1], _expanded_shape(t[2], pname, mname))
+    if t[0] == "block":
+        kids = tuple(_expanded_shape(x, pname, mname) for x in t[4])
+        if t[2]:
+            return ("block", False, False, "*", (("gate", pname, ()),) + kids + (("gate", mname, ()),))
+        return ("block", t[1], False, t[3], kids)
+    return t
+
+
+def _same_shape(a, b):
+    """Equality of shapes; "*" (the count of an expanded subcircuit) matches anything."""
+    if a == "*" or b == "*":
+        return True
+    if isinstance(a, tuple) and isinstance(b, tuple):
+        return len(a) == len(b) and all(_same_shape(x, y) for x, y in zip(a, b))
+    return a == b
 
 
 def check_c09_structure(viol, plan, texts, G, clock, budget, probe):
@@ -1046,6 +1161,21 @@ def check_c09_structure(viol, plan, texts, G, clock, budget, probe):
         probe("c09_string_named_bounding_gates")
     elif mE != mB:
         viol.add("C09", "expanded_meaning_equals_spelled_out", "mismatch", "expand_subcircuits")
+    # exact nesting: every statement other than a subcircuit block stays where it is
+    pn, mn = {"caller_copy": ("prepare_fast", "measure_fast"), "other_names": ("prepare_z", "measure_z")}.get(plan["bounding"], ("prepare_all", "measure_all"))
+    try:
+        want_shape = _expanded_shape(_shape(cA.body), pn, mn)
+        got_shape = _shape(eA.body)
+        if not _same_shape(want_shape, got_shape):
+            viol.add("C09", "nesting_unchanged", "mismatch", "expand_subcircuits", "body: expected %r got %r" % (want_shape, got_shape))
+        else:
+            for name, m in cA.macros.items():
+                if name in eA.macros and not _same_shape(_expanded_shape(_shape(m.body), pn, mn), _shape(eA.macros[name].body)):
+                    viol.add("C09", "nesting_unchanged", "mismatch", "expand_subcircuits", "macro %s: expected %r got %r" % (name, _expanded_shape(_shape(m.body), pn, mn), _shape(eA.macros[name].body)))
+                    break
+        probe("c09_exact_nesting_compared")
+    except RecursionError:
+        pass
     left = [b for b in extract.iter_blocks(eA) if getattr(b, "subcircuit", False)]
     if left:
         viol.add("C09", "no_subcircuit_left", "mismatch", "expand_subcircuits", "%d left" % len(left))
